@@ -9,6 +9,7 @@ import (
 	"strings"
 	"testing"
 	"unicode"
+	"unicode/utf8"
 
 	"vfkit"
 )
@@ -255,6 +256,33 @@ func TestVf_C15(t *testing.T) {
 			run.Sample(s)
 		}
 		vfJidCheck(run, s)
+		// a close relative of the string just parsed, right after it (anything remembered from one call - a cache
+		// keyed by a normalised form, a reused buffer - shows when two different strings meet), and the same
+		// string once more
+		if c%4 == 0 && len(s) > 0 {
+			v := s
+			switch r.Intn(6) {
+			case 0:
+				v = s + " "
+			case 1:
+				v = " " + s
+			case 2:
+				v = strings.ToUpper(s)
+			case 3:
+				v = s[:len(s)-1]
+			case 4:
+				v = s + "/x"
+			case 5:
+				v = strings.Replace(s, "@", "@@", 1)
+			}
+			if utf8.ValidString(v) == utf8.ValidString(s) {
+				run.CaseQuiet()
+				vfJidCheck(run, v)
+			}
+			run.CaseQuiet()
+			vfJidCheck(run, s)
+			run.Count("related_strings_parsed_in_sequence", 1)
+		}
 	}
 	if run.NViolations() > 0 {
 		t.Fail()
